@@ -155,6 +155,7 @@ def print_assumptions(pid, relpath, tag=None):
                 res.append(dict(name=name, axioms=[], ok=True))
             else:
                 ax = re.findall(r'^([A-Za-z_][\w\.\']*)\s*:', body, flags=re.M)
+                ax = [a for a in ax if a != 'Axioms']
                 bad = [a for a in ax if a not in ALLOWED_AXIOMS]
                 res.append(dict(name=name, axioms=ax, ok=(len(ax) > 0 and not bad)))
         seen = {x['name'] for x in res}
